@@ -261,6 +261,8 @@ func Universe(o UniverseOpts) *Schema {
 			f("title", N("String")), f("dual", N("String")),
 			m("tri", N("String"), &ArgDef{Name: "a", Type: N("String")}, &ArgDef{Name: "b", Type: N("String")}, &ArgDef{Name: "c", Type: N("String")}),
 			m("rev", N("String"), &ArgDef{Name: "x", Type: N("String")}, &ArgDef{Name: "y", Type: N("String")}),
+			// reflection: Go parameters of type string (receives an enum) and of a named string type (receives a String)
+			m("paint", N("String"), &ArgDef{Name: "c", Type: N("Color")}, &ArgDef{Name: "t", Type: N("String")}),
 			m("pick", N("String"), &ArgDef{Name: "i", Type: N("Int")}, &ArgDef{Name: "e", Type: N("Color")}, &ArgDef{Name: "in", Type: N("Filter")},
 				&ArgDef{Name: "ids", Type: L(NN(N("ID")))}, &ArgDef{Name: "ss", Type: L(N("String"))}, &ArgDef{Name: "fs", Type: L(N("Filter"))}, &ArgDef{Name: "m", Type: L(L(N("Int")))}),
 			m("mi", N("Int")), m("mkid", N("A")), m("mkids", L(N("A"))), m("mnamed", N("Named")),
